@@ -547,7 +547,7 @@ static void deliver(int m, int s, int j, TControl& control, int selfOk, int evOk
 		emitLogs("lg", g_pendLog, false);
 		g_rec.s("}");
 	}
-	g_rec.s("]}\n");
+	g_rec.s("],"); g_rec.kv("mact2", machine.activeStateId(), false); g_rec.s("}\n");
 }
 
 
